@@ -110,12 +110,32 @@ class Report:
                 return f
         return None
 
+    @staticmethod
+    def _shape_applies(f: dict, failure: dict) -> bool:
+        """A finding matched by site + signature may narrow the inputs it stands for: `unless_line_ends_with` lists endings of the physical line the
+        observation points at ("... at (L, C) ...") for which the finding does NOT apply, so that a different defect with the same symptom is reported."""
+        ends = f.get("unless_line_ends_with")
+        if not ends:
+            return True
+        import re as _re
+        m = _re.search(r"at \((\d+), \d+\)", str(failure.get("observed")))
+        src = failure.get("input")
+        if not m or not isinstance(src, str):
+            return False
+        lines = src.split("\n")
+        k = int(m.group(1)) - 1
+        if not (0 <= k < len(lines)):
+            return False
+        line = lines[k] + ("\n" if k < len(lines) - 1 else "")
+        return not any(line.endswith(e) for e in ends)
+
     def _standin_known(self, failure: dict):
         for f in self.known.get("findings", []):
             if f.get("property") == self.prop and f.get("standin_input") is not None \
                     and f.get("standin_input") == failure.get("input"):
                 return f
             if f.get("property") == self.prop and f.get("site") and f.get("site") == failure.get("site") \
+                    and self._shape_applies(f, failure) \
                     and (f.get("signature") is None or f.get("signature") in json.dumps(failure.get("observed"), default=str, ensure_ascii=False)
                          or f.get("signature") in str(failure.get("observed")) or f.get("signature") == failure.get("signature")):
                 return f
